@@ -539,6 +539,7 @@ type FuncSpec struct {
 	Ensures  []*Clause
 	Modifies []string
 	HasMods  bool
+	Reveals  []string // labels of opaque axioms (definitions) this function's proof may use
 	Decr     *Clause
 	Loops    map[int]*LoopSpec
 	AllInv   []*Clause // invariants of every loop of the function ("invariant-all")
@@ -571,13 +572,16 @@ type Ghost struct {
 }
 
 type Axiom struct {
-	Label string
-	Expr  *CExpr
-	Src   string
+	Label  string
+	Expr   *CExpr
+	Src    string
+	Opaque bool     // a definition that is hidden unless a function lists it under "reveals" (lemmas stated after it see it)
+	Lemma  bool     // proved once (obligation <pkg>.lemmas#lemma[label]) from what precedes it, then used like an axiom
+	Tags   []string // properties a lemma serves
 }
 
 var clauseKeywords = map[string]bool{"func": true, "pred": true, "returns": true, "requires": true, "ensures": true,
-	"invariant": true, "decreases": true, "modifies": true, "loop": true, "pure": true, "trusted": true, "end": true, "regexp": true, "ghost": true, "axiom": true, "functype": true, "invariant-all": true}
+	"invariant": true, "decreases": true, "modifies": true, "loop": true, "pure": true, "trusted": true, "end": true, "regexp": true, "ghost": true, "axiom": true, "opaque-axiom": true, "reveals": true, "lemma": true, "functype": true, "invariant-all": true}
 
 // collectContractLines extracts the "//@" lines of a file, joining continuation lines.
 func collectContractLines(f *ast.File) []string {
@@ -714,13 +718,22 @@ func parsePkgSpec(pkgName string, files []*ast.File, fileNames []string) (*PkgSp
 				gh.Result = tail
 				ps.Ghosts[gh.Name] = gh
 				cur = nil
-			case kw == "axiom":
-				label, _, es := parseLabelTags(rest)
+			case kw == "reveals":
+				if cur == nil {
+					return nil, fmt.Errorf("%s: reveals outside a func block", fileNames[fi])
+				}
+				for _, r := range strings.Split(rest, ",") {
+					if r = strings.TrimSpace(r); r != "" {
+						cur.Reveals = append(cur.Reveals, r)
+					}
+				}
+			case kw == "axiom" || kw == "lemma" || kw == "opaque-axiom":
+				label, tags, es := parseLabelTags(rest)
 				e, err := parseCExpr(es)
 				if err != nil {
-					return nil, fmt.Errorf("%s: axiom %s: %v", fileNames[fi], label, err)
+					return nil, fmt.Errorf("%s: %s %s: %v", fileNames[fi], kw, label, err)
 				}
-				ps.Axioms = append(ps.Axioms, &Axiom{Label: label, Expr: e, Src: es})
+				ps.Axioms = append(ps.Axioms, &Axiom{Label: label, Expr: e, Src: es, Lemma: kw == "lemma", Opaque: kw == "opaque-axiom", Tags: tags})
 				cur = nil
 			case kw == "regexp":
 				// regexp sha1Regexp: match(s) ==> len(s) >= 40
